@@ -76,6 +76,39 @@ SigC(p, C, n, S, M) ==
       [] OTHER -> [t \in T |-> Undef]
 
 ---------------------------------------------------------------------------
+\* Boolean satisfaction on cells (property C07 in dense time), defined independently of SigC
+RECURSIVE SatC(_, _, _, _)
+SatC(p, C, n, S) ==
+  LET T == 1..n IN
+  IF p.op = "pred" THEN
+    LET L == Val(p.l, C, n, S)
+        R == Val(p.r, C, n, S) IN
+    [t \in T |-> PredHolds(p.cmp, L[t], R[t])]
+  ELSE IF p.op \in Un1 THEN
+    LET L == SatC(p.l, C, n, S) IN
+    CASE p.op = "not"   -> [t \in T |-> ~L[t]]
+      [] p.op = "once"  -> [t \in T |-> \E j \in 1..t : L[j]]
+      [] p.op = "hist"  -> [t \in T |-> \A j \in 1..t : L[j]]
+      [] p.op = "ev"    -> [t \in T |-> \E j \in t..n : L[j]]
+      [] p.op = "alw"   -> [t \in T |-> \A j \in t..n : L[j]]
+      [] p.op = "onceT" -> [t \in T |-> \E j \in PastWin(n, t - p.b, t - p.a) : L[j]]
+      [] p.op = "histT" -> [t \in T |-> \A j \in PastWin(n, t - p.b, t - p.a) : L[j]]
+      [] p.op = "evT"   -> [t \in T |-> \E j \in FutWin(n, t + p.a, t + p.b) : L[j]]
+      [] p.op = "alwT"  -> [t \in T |-> \A j \in FutWin(n, t + p.a, t + p.b) : L[j]]
+  ELSE
+    LET L == SatC(p.l, C, n, S)
+        R == SatC(p.r, C, n, S) IN
+    CASE p.op = "and"     -> [t \in T |-> L[t] /\ R[t]]
+      [] p.op = "or"      -> [t \in T |-> L[t] \/ R[t]]
+      [] p.op = "implies" -> [t \in T |-> L[t] => R[t]]
+      [] p.op = "iff"     -> [t \in T |-> L[t] <=> R[t]]
+      [] p.op = "xor"     -> [t \in T |-> ~(L[t] <=> R[t])]
+      [] p.op = "since"   -> [t \in T |-> \E j \in 1..t : R[j] /\ \A i \in j..t : L[i]]
+      [] p.op = "until"   -> [t \in T |-> \E j \in t..n : R[j] /\ \A i \in t..j : L[i]]
+      [] p.op = "sinceT"  -> [t \in T |-> \E j \in PastWin(n, t - p.b, t - p.a) : R[j] /\ \A i \in j..t : L[i]]
+      [] p.op = "untilT"  -> [t \in T |-> \E j \in FutWin(n, t + p.a, t + p.b) : R[j] /\ \A i \in t..j : L[i]]
+DenseBool(p) == IsBoolFormula(p) /\ DenseOK(p) /\ ~HasOp(p, {"iff", "xor"})
+
 \* A bounded past operator keeps changing for up to b time units after its operand has settled, so the inputs
 \* are extended (held) by Settle(p) cells beyond the end of the domain before SigC is applied; beyond that every
 \* sub-formula is constant and the clipped tail cell is exact.
